@@ -54,7 +54,7 @@ __asm__(".text\n"
         "    ret\n"
         ".size abtv_canary_call,.-abtv_canary_call\n");
 enum { PK_YIELD, PK_SELF_YIELD, PK_YIELD_TO, PK_THREAD_YIELD_TO, PK_SUSPEND, PK_SUSPEND_TO, PK_EXIT_TO, PK_RESUME_YIELD_TO, PK_RESUME_SUSPEND_TO,
-       PK_RESUME_EXIT_TO, PK_CREATE_TO, PK_REVIVE_TO, PK_JOIN, PK_FREE, PK_MUTEX, PK_EVENTUAL };
+       PK_RESUME_EXIT_TO, PK_CREATE_TO, PK_REVIVE_TO, PK_JOIN, PK_FREE, PK_MUTEX, PK_EVENTUAL, PK_SET_MAIN_SCHED };
 typedef struct {
     int kind;
     ABT_thread th, *pth;
@@ -64,6 +64,7 @@ typedef struct {
     ABT_thread_attr attr;
     ABT_mutex mx;
     ABT_eventual ev;
+    int kind2;
 } prim_t;
 static long prim_thunk(void *q)
 {
@@ -84,11 +85,16 @@ static long prim_thunk(void *q)
         case PK_JOIN: return ABT_thread_join(p->th);
         case PK_FREE: return ABT_thread_free(p->pth);
         case PK_MUTEX: return ABT_mutex_lock(p->mx);
+        case PK_SET_MAIN_SCHED: {
+            ABT_xstream self_xs;
+            ABT_xstream_self(&self_xs);
+            return ABT_xstream_set_main_sched_basic(self_xs, p->kind2 ? ABT_SCHED_BASIC : ABT_SCHED_PRIO, 1, &p->pool);
+        }
         default: return ABT_eventual_wait(p->ev, NULL);
     }
 }
 static const char *const PK_NAME[] = { "yield", "self_yield", "yield_to", "thread_yield_to", "suspend", "suspend_to", "exit_to", "resume_yield_to",
-                                       "resume_suspend_to", "resume_exit_to", "create_to", "revive_to", "join", "free", "mutex_lock", "eventual_wait" };
+                                       "resume_suspend_to", "resume_exit_to", "create_to", "revive_to", "join", "free", "mutex_lock", "eventual_wait", "set_main_sched" };
 static volatile unsigned g_canary_n;
 /* performs the primitive with live canaries; *flags = what came back intact (bit 0 registers, 1 MXCSR, 2 x87 CW) */
 static int ccall_q(int u, prim_t *p, int *flags)
@@ -212,7 +218,13 @@ static void do_join(int who, unit_t *c)
     EV("\"e\":\"JoinCall\",\"by\":%d,\"u\":%d", who, c->id);
     if (c->kind == U_TASK && rnd(2))
         CHK(ABT_task_join(c->th));
-    else
+    else if (who > 0 && U[who].kind == U_ULT) {
+        int fl = 0;
+        CHK(ccall_q(who, &(prim_t){ .kind = PK_JOIN, .th = c->th }, &fl));
+        EV("\"e\":\"JoinRet\",\"by\":%d,\"u\":%d,\"st\":%d,\"tok\":%d", who, c->id, state_of(c->th), c->token);
+        ctx_log(who, PK_JOIN, fl);
+        return;
+    } else
         CHK(ABT_thread_join(c->th));
     EV("\"e\":\"JoinRet\",\"by\":%d,\"u\":%d,\"st\":%d,\"tok\":%d", who, c->id, state_of(c->th), c->token);
 }
@@ -225,6 +237,17 @@ static void do_free(int who, unit_t *c)
     if (c->kind == U_TASK && rnd(2)) {
         CHK(ABT_task_free(&c->th));
         isnull = c->th == ABT_TASK_NULL;
+    } else if (who > 0 && U[who].kind == U_ULT) {
+        int fl = 0;
+        CHK(ccall_q(who, &(prim_t){ .kind = PK_FREE, .pth = &c->th }, &fl));
+        isnull = c->th == ABT_THREAD_NULL;
+        EV("\"e\":\"FreeRet\",\"by\":%d,\"u\":%d,\"null\":%d,\"tok\":%d", who, c->id, isnull, c->token);
+        ctx_log(who, PK_FREE, fl);
+        if (!c->accounted) {
+            c->accounted = 1;
+            __sync_sub_and_fetch(&g_live, 1);
+        }
+        return;
     } else {
         CHK(ABT_thread_free(&c->th));
         isnull = c->th == ABT_THREAD_NULL;
@@ -1380,10 +1403,10 @@ static void rp_body(void *arg)
             /* the replacement is a scheduling point of the caller */
             EV("\"e\":\"Note\",\"what\":\"set_main_sched\",\"u\":%d,\"keep\":%d", me->id, me->keep);
             EV("\"e\":\"Yield\",\"u\":%d", me->id);
-            ABT_xstream self_xs; /* (the creator may not have stored the stream's handle yet) */
-            CHK(ABT_xstream_self(&self_xs));
-            CHK(ABT_xstream_set_main_sched_basic(self_xs, rnd(2) ? ABT_SCHED_BASIC : ABT_SCHED_PRIO, 1, &g_rq[me->keep]));
+            /* (the stream's own handle: the creator may not have stored g_rx yet) */
+            CHK(ccall_q(me->id, &(prim_t){ .kind = PK_SET_MAIN_SCHED, .pool = g_rq[me->keep], .kind2 = rnd(2) }, &fl));
             EV("\"e\":\"Back\",\"u\":%d", me->id);
+            ctx_log(me->id, PK_SET_MAIN_SCHED, fl);
         }
     }
     EV("\"e\":\"Finish\",\"u\":%d", me->id);
